@@ -288,14 +288,15 @@ Print Assumptions C18_common_duration.
 
 (* align_delays + align_only_delays + align_right_nonneg: on success the output has the same events
    in the same order, the delays are 0 / (D - len)/2 / D - len, length and every other field are
-   untouched, and a right-aligned delay is not negative.  Hypothesis: no event ends before t = 0
+   untouched EXCEPT the library id, which the copies drop (they are new events: with the id of the input,
+   add_block would store the input event with its old delay), and a right-aligned delay is not negative.  Hypothesis: no event ends before t = 0
    (calc_duration of a single event clamps at 0 otherwise). *)
 Theorem C18_align_spec : forall l out,
   Forall (fun se => 0 <= ev_duration (snd se)) l ->
   align l = OK out ->
   let D := calc_duration (map snd l) in
   Forall2 (fun se e' => a_delay e' == align_target D (fst se) (snd se) /\
-                        a_len e' = a_len (snd se) /\ a_tag e' = a_tag (snd se) /\
+                        a_len e' = a_len (snd se) /\ a_tag e' = a_tag (snd se) /\ a_id e' = None /\
                         (fst se = align_right -> 0 <= a_delay e')) l out.
 Proof. exact align_spec. Qed.
 Print Assumptions C18_align_spec.
@@ -312,7 +313,7 @@ Theorem C18_align_negative_total_refuted : exists l out,
   align l = OK out /\
   ~ Forall2 (fun se e' => a_delay e' == align_target (calc_duration (map snd l)) (fst se) (snd se)) l out.
 Proof.
-  exists [(1%nat, mkAev 1 (-3) 0)], [mkAev 1 (-(3 # 2)) 0]. split; [vm_compute; reflexivity|].
+  exists [(1%nat, mkAev 1 (-3) 0 None)], [mkAev 1 (-(3 # 2)) 0 None]. split; [vm_compute; reflexivity|].
   intro H. inversion H; subst. vm_compute in H3. discriminate.
 Qed.
 Print Assumptions C18_align_negative_total_refuted.
@@ -320,8 +321,9 @@ Print Assumptions C18_align_negative_total_refuted.
 (* FIX-10 example: center alignment of a delayed short trapezoid (delay 100 us, length 400 us) with a
    long one (1200 us): the new delays are (1200-400)/2 = 400 us and 0 *)
 Example C18_align_center_example :
-  match align [(1%nat, mkAev (4 # 10000) (1 # 10000) 0); (1%nat, mkAev (12 # 10000) 0 1)] with
-  | OK [a; b] => Qeq_bool (a_delay a) (4 # 10000) && Qeq_bool (a_delay b) 0
+  match align [(1%nat, mkAev (4 # 10000) (1 # 10000) 0 (Some 7%Z)); (1%nat, mkAev (12 # 10000) 0 1 None)] with
+  | OK [a; b] => Qeq_bool (a_delay a) (4 # 10000) && Qeq_bool (a_delay b) 0 &&
+                 match a_id a with None => true | Some _ => false end
   | _ => false
   end = true.
 Proof. vm_compute. reflexivity. Qed.
